@@ -211,9 +211,8 @@ def rule_reduce(ctx, p: Project):
     for name in ("mapper_edge_pixel_list", "mapper_zero_pixel_list"):
         f = p.func(f"{AB}.{name}")
         loops = [n for n in f.node.body if isinstance(n, ast.For)]
-        ok = len(loops) == 1 and norm_text(loops[0].iter).replace(" ", "") == "zip(param_range_list,self.linear_obj_list)" and norm_text(loops[0].target).replace(" ", "") in ("(param_range,linear_obj)", "param_range,linear_obj")
-        pr = [n for n in f.body_nodes() if isinstance(n, ast.Assign) and norm_text(n.targets[0]) == "param_range_list"]
-        ok = ok and len(pr) == 1 and norm_text(pr[0].value) == "self.param_range_list_from(cls=LinearObj)"
+        pairing = wire.range_pairing(f, loops[0]) if len(loops) == 1 else None
+        ok = pairing is not None and pairing["sound"]
         ctx.ob(rule, f"{name}: ranges of all objects zipped with the object list", ok, where=f, node=loops[0] if loops else f.node, construct=norm_text(loops[0].iter) if loops else "no loop",
                message="parameter ranges must be those of every linear object, zipped with the list in order")
         for c in f.calls():
@@ -229,9 +228,12 @@ def rule_reduce(ctx, p: Project):
                     else:
                         terms.append(e)
                 flat(a)
-                offs = [t for t in terms if norm_text(t) == "param_range[0]"]
-                rest = [t for t in terms if norm_text(t) != "param_range[0]"]
-                ok = len(offs) == 1 and len(rest) == 1 and wire.cond_holds(wire.path_conds(f, c), "isinstance(linear_obj, AbstractMapper)")   # nested `if` or `continue` guard alike
+                rv, ov = (pairing["rng"], pairing["obj"]) if pairing else ("param_range", "linear_obj")
+                offs = [t for t in terms if norm_text(t) == f"{rv}[0]"]
+                rest = [t for t in terms if norm_text(t) != f"{rv}[0]"]
+                # only mappers contribute: an isinstance guard (nested `if` or `continue` alike), or a pairing that is already restricted to the mappers
+                only_mappers = wire.cond_holds(wire.path_conds(f, c), f"isinstance({ov}, AbstractMapper)") or bool(pairing and pairing["filtered"] and pairing["cls"] == "AbstractMapper")
+                ok = len(offs) == 1 and len(rest) == 1 and only_mappers
                 ctx.ob(rule, f"{name}: local pixel index shifted by param_range[0]", ok, where=f, node=c, construct=f"{name}.append({norm_text(a)[:80]})",
                        message="a pixel index of one mapper must be shifted by that mapper's first parameter index (param_range[0]) exactly once before it addresses the stacked system; "
                                "without the shift the wrong parameters are forced to zero whenever the mapper is not first in the list")
